@@ -16,6 +16,9 @@ Inductive act :=
 | ARetryJoin               (* try_join = True *)
 | ANoRetry
 | AErrored                 (* the error is stored and raised to the caller of this request *)
+| ADone                    (* batch.done(...): the batch's futures resolve successfully *)
+| AFail                    (* batch.failure(...): the batch's futures fail *)
+| AReenqueue               (* the batch goes back to the accumulator for a retry *)
 | ARaiseSame               (* raise error_type(...) : the broker's own error class *)
 | ARaiseCode (c : Z)
 | ARaiseUnexpected         (* raise Errors.KafkaError(...) : "unexpected error", fatal *)
@@ -37,6 +40,7 @@ Definition act_eqb (a b : act) : bool :=
   | ASuccess, ASuccess | ACoordinatorDead, ACoordinatorDead | ARequestRejoin, ARequestRejoin
   | AResetGeneration, AResetGeneration | AMetadataUpdate, AMetadataUpdate | ABackoff, ABackoff
   | ASetMemberId, ASetMemberId | ARetryJoin, ARetryJoin | ANoRetry, ANoRetry | AErrored, AErrored
+  | ADone, ADone | AFail, AFail | AReenqueue, AReenqueue
   | ARaiseSame, ARaiseSame | ARaiseUnexpected, ARaiseUnexpected | ARaiseOther, ARaiseOther
   | AFallThrough, AFallThrough => true
   | ARaiseCode x, ARaiseCode y => x =? y
